@@ -62,6 +62,11 @@ package retry
 //@   requires wf_retry(a) && pending == 0 && !batch_open
 //@   modifies inferred:(*asyncFifoRetryImpl).retry
 //@   ensures [every-dealt-revision-reported] pending == 0
+// C09 ("including faults on the repair write itself", both variants): when the repair's own outcome is
+// unknown, the entry stays queued -- if the repair did not land, the key is still at the revision this
+// entry names, and the entry queued for the repair names another one
+//@   ensures@C09 [an-entry-whose-repair-has-an-unknown-outcome-stays-queued] commits == old(commits)+1 && err_is(last_err, storage.ErrUncertainResult) ==> rq_pops == old(rq_pops)
+//@   ensures@C09 [at-most-one-entry-leaves-the-queue] rq_pops == old(rq_pops) || rq_pops == old(rq_pops)+1
 
 // ---- C19 / C09: the retry queue is guarded by its mutex ----
 //@ monitor eventQueue queueSize head tail
@@ -86,10 +91,13 @@ package retry
 //@   ensures [one-more-entry] locked(e.queueSize) < 0x4000000000000000 ==> e.queueSize == locked(e.queueSize)+1
 // (the new node is unpublished until linked; that the waiting tail is a different object is not expressible here)
 //@   ensures [linked-behind-the-old-tail] locked(e.tail) != nil ==> locked(e.tail).next == e.tail && (locked(e.tail) != e.tail ==> locked(e.tail).event == locked(e.tail.event))
+// rq_pops counts the entries taken off the queue (ghost assignment in pop)
+//@ ghost rq_pops Int
 //@ func (*eventQueue).pop()
 //@   props C19 C09
 //@   nosafety
-//@   modifies inferred:(*eventQueue).pop
+//@   modifies inferred:(*eventQueue).pop ghost.rq_pops
+//@   assume_ensures [ghost-assignment] rq_pops == old(rq_pops)+1
 
 //@ func newEventNode(event) (result)
 //@   props C19 C09
